@@ -17,6 +17,8 @@ func runExtras(r *Runner, p *Property, tier string) ([]*LedgerEntry, []string) {
 		switch x {
 		case "spec-lemmas":
 			out = append(out, specLemmaObligations(r)...)
+		case "dv-lemmas":
+			out = append(out, dvLemmaObligations(r)...)
 		}
 	}
 	return out, broken
@@ -69,3 +71,26 @@ func specLemmaObligations(r *Runner) []*LedgerEntry {
 	return out
 }
 
+
+// dvLemmaObligations: the step case of the stickiness lemma of the saturating decimal value:
+// DV(k,b) == 2^64 and data[b] a digit imply DV(k,b+1) == 2^64 (base case is trivial: a == b).
+func dvLemmaObligations(r *Runner) []*LedgerEntry {
+	arr := Var("lemma.arr", ArraySort(BV(64), BV(8)))
+	k := Var("lemma.k", BV(64))
+	b := Var("lemma.b", BV(64))
+	sat := BVC(128, satLimit)
+	dv := func(a *Term) *Term { return App("DV$lemma.arr", BV(128), k, a) }
+	d := ZeroExt(120, Sub(Select(arr, b), BVI(8, '0')))
+	nx := Add(Mul(dv(b), BVI(128, 10)), d)
+	stepAx := Implies(And(Sle(k, b), isDigitTerm(Select(arr, b))), Eq(dv(Add(b, I64(1))), Ite(Ule(sat, nx), sat, nx)))
+	q := &Query{Name: "spec/DVsticky/step", Hyps: []*Term{stepAx, Sle(k, b), isDigitTerm(Select(arr, b)), Eq(dv(b), sat)}, Goals: []*Term{Eq(dv(Add(b, I64(1))), sat)}}
+	body, _ := q.Build(0)
+	res := r.eng.pool.Decide(body, nil, r.quickMs, r.slowMs)
+	e := &LedgerEntry{Name: "spec/DVsticky/step", Kind: "lemma", Fn: "spec", Instances: 1, Solver: res.Solver, Secs: res.Secs, Status: "discharged"}
+	if res.Status != "unsat" {
+		e.Status = "failed"
+		e.Detail = "solver answered " + res.Status
+		e.failQ, e.failRes = q, res
+	}
+	return []*LedgerEntry{e}
+}
